@@ -91,6 +91,15 @@ pub fn lane_cycles(ctx: &mut Ctx) {
                 _ => Some(rng.range(2, 1000) as u32), // too large on a fresh canister
             };
             let c_err = c.map(|x| x > 1).unwrap_or(false);
+            // page-token errors are request-level errors too (only the base is charged)
+            let page_err: Option<Vec<u8>> = match rng.below(6) {
+                0 => {
+                    let n = rng.range(0, 71) as usize;
+                    Some(rng.bytes(n))
+                }
+                1 => Some(rng.bytes(72)),
+                _ => None,
+            };
             let var = |base: u128, rate: u128, max: u128| -> u128 { base + std::cmp::min((ins / 10) as u128 * rate, max - base) };
             let tx_len = rng.range(0, 300) as usize;
             let tx_ok = rng.chance(1, 2);
@@ -112,9 +121,9 @@ pub fn lane_cycles(ctx: &mut Ctx) {
                 Call {
                     name: "get_utxos",
                     maximum: fees.get_utxos_maximum,
-                    charges: if addr_err || c_err { vec![fees.get_utxos_base] } else { vec![var(fees.get_utxos_base, fees.get_utxos_cycles_per_ten_instructions, fees.get_utxos_maximum)] },
+                    charges: if addr_err || c_err || page_err.is_some() { vec![fees.get_utxos_base] } else { vec![var(fees.get_utxos_base, fees.get_utxos_cycles_per_ten_instructions, fees.get_utxos_maximum)] },
                     run: Box::new(move || {
-                        let f = match c { None => Filter::None, Some(x) => Filter::MinConf(x) };
+                        let f = match (&page_err, c) { (Some(p), _) => Filter::Page(p.clone()), (None, None) => Filter::None, (None, Some(x)) => Filter::MinConf(x) };
                         match world::get_utxos_update(&a2, net, &f) { Out::Trap(_) => (true, false), Out::Ok(r) => (false, r.is_err()) }
                     }),
                 },
